@@ -295,3 +295,86 @@ def slices(i, v):
 
 
 FUNCS["slices"] = (slices, "ii")
+
+
+class NeOnly:
+    """`!=` is supported, `==` is not (raises): code that only uses `!=` must keep working."""
+
+    def __init__(self, v):
+        self.v = v
+
+    def __ne__(self, other):
+        return self.v != other.v
+
+    def __eq__(self, other):
+        raise RuntimeError("NeOnly does not support ==")
+
+    __hash__ = None
+
+
+def neonly(a, b):
+    x = NeOnly(a)
+    y = NeOnly(b)
+    if x != y:
+        return "differ"
+    return "same"
+
+
+def emptyprefix(s, n):
+    p = ("a", "b")[:n % 3]
+    r = 0
+    if s.startswith(p):
+        r += 1
+    if s.endswith(p):
+        r += 2
+    return r
+
+
+def cmpnone(a, b):
+    r = 0
+    if (a < b) is None:
+        r += 1
+    if (a == b) is not None:
+        r += 2
+    return r
+
+
+def tiny(x, y):
+    e = x * 1e-12
+    r = 0
+    if e:
+        r += 1
+    if 0.1 * x + 0.2 * x == 0.3 * x:
+        r += 2
+    if e <= y * 1e-13:
+        r += 4
+    if 2 ** 53 + x < 2 ** 53 + y:
+        r += 8
+    return r
+
+
+def displays(x, y):
+    d = {
+        "a": x,
+        "b": y,
+    }
+    points = [
+        x,
+        y,
+    ]
+    try:
+        pass
+        z = d["a"] // y
+    finally:
+        pass
+    return (
+        z,
+        points,
+    )
+
+
+FUNCS["neonly"] = (neonly, "ii")
+FUNCS["emptyprefix"] = (emptyprefix, "si")
+FUNCS["cmpnone"] = (cmpnone, "ii")
+FUNCS["tiny"] = (tiny, "ii")
+FUNCS["displays"] = (displays, "ii")
